@@ -682,6 +682,19 @@ MessageReceivedFromGateway(const MessageRef & msgRef, void * userData)
                   const PathMatcherEntry * e = _subscriptions.GetEntries()[depth].Get(fixPath);
                   if (e)
                   {
+                     // (e) may have been created under another spelling of the same path (eg "n*" vs "/*/*/n*").  There is only one
+                     // subscription, so we list only its current spelling;  otherwise removing one of the two parameters later on
+                     // would silently end the subscription that the other parameter still appears to stand for.
+                     for (MessageFieldNameIterator pit = _parameters.GetFieldNameIterator(); pit.HasData(); pit++)
+                     {
+                        const String & pn = pit.GetFieldName();
+                        if ((pn != fn)&&(pn.StartsWith(_subscribePrefixWithColon)))
+                        {
+                           String otherPath = pn.Substring(_subscribePrefixWithColon.Length()); _subscriptions.AdjustStringPrefix(otherPath, DEFAULT_PATH_PREFIX);
+                           if (otherPath == fixPath) {const String otherName = pn; (void) _parameters.RemoveName(otherName); break;}
+                        }
+                     }
+
                      const QueryFilter * subscriptionFilter = e->GetFilter()();
                      if ((GetSubscriptionsEnabled())&&((filter() != NULL)||(subscriptionFilter != NULL)))
                      {
